@@ -127,14 +127,20 @@ MB_TARGETS = [
 @unit(
     "system.get_mass_balance",
     props=["C02"],
-    targets=MB_TARGETS[:1] + MB_TARGETS[4:],
+    targets=MB_TARGETS[:1],
+    stubs=MB_TARGETS[4:],
     skeletons=sk_graphs,
     note="balance of every process = inflows - outflows - net stock addition (mirror on sysenv), each contribution summed to the dimensions common to all contributions of that process; a process without any contribution has the balance 0",
 )
 def u_get_mass_balance(W, sk):
+    from .arrays import operator_contract_stubs
+
     S = System(W, sk["graph"])
     snaps = SL.snapshot(W, S.arrays())
-    out = W.call(lambda: S.mfa._get_mass_balance())
+    # modular: the arithmetic on flows goes through the *contracts* of the FlodymArray operators (stubs)
+    out = W.call(lambda: S.mfa._get_mass_balance(), stubs=operator_contract_stubs(W))
+    if W.symbolic and (S.flow_list or S.stock_list):
+        W.prove("get_mass_balance.operator_contracts_were_used", len(W.called_stubs) > 0, kind="callee-pre")
     W.prove("get_mass_balance.returns", out.kind == "return", detail=repr(out))
     if out.kind != "return":
         return
@@ -166,7 +172,8 @@ def sk_check(tier):
 @unit(
     "system.check_mass_balance",
     props=["C02"],
-    targets=MB_TARGETS,
+    targets=MB_TARGETS[1:4],
+    stubs=MB_TARGETS[:1],
     skeletons=sk_check,
     note="succeeds iff every entry of every process balance is within the tolerance in absolute value; raise_error=False never raises and logs a warning instead; default tolerance = 100 * eps * (largest absolute flow or stock value); the max-reductions are linked to entries by their definition (attained, dominates every entry)",
 )
@@ -184,8 +191,18 @@ def u_check_mass_balance(W, sk):
         W.assume(tol >= 0) if W.symbolic else None
         if not W.symbolic:
             tol = abs(tol) * 0.1
-    # the process balances as the checker computes them (proved equal to the specification in system.get_mass_balance)
-    pre = W.call(lambda: mfa._get_mass_balance())
+    # modular: check_mass_balance is verified against the *contract* of _get_mass_balance (proved in
+    # system.get_mass_balance): in the symbolic world the callee is replaced by a stub returning the specified balances
+    if W.symbolic:
+        from .arrays import materialize
+        from flodym.mfa_system import MFASystem
+
+        def gmb_contract(self):
+            W.called_stubs.append("MFASystem._get_mass_balance")
+            return {p: materialize(W, S.balance_spec(p) or SL.Lab(W, (), {}, lambda asg: 0)) for p in S.processes}
+
+        stubs = stubs + [(MFASystem, "_get_mass_balance", gmb_contract)]
+    pre = W.call(lambda: mfa._get_mass_balance(), stubs=stubs)
     if pre.kind != "return":
         # a system for which the balance cannot even be formed: check_mass_balance must not claim success silently;
         # the statement requires the check to work for every graph
